@@ -3,7 +3,9 @@
 theorems : lean/GoldModel/Props/C14.lean — requests_complete (every request of every kind returns on every workspace), link_acyclic (the repaired linking rule never creates a cycle
            of parent tables, for every parent assignment / uses-graph / request order), lookup_terminates,
            walks_terminate (every graph) / walks_terminate_acyclic, negation witnesses self_cycle, mutual_cycle
-tie 1    : E11ParentLink — self-parent guard, chain check and visited sets read from the source on every run
+tie 1    : E11ParentLink — self-parent guard, chain check and visited sets read from the source on every run;
+           E11TableCache — the table is published before the tree walk and a published table is handed out
+           whoever owns it (class, module, nobody = file without header)
 tie 2    : correspondence `lock` — the real ProjectManager on materialised workspaces of every shape: the model
            predicts per request completes | deadlocks | diverges and the final parent pointer of every class table
 oracle   : every request of every kind on every file completes before a deadline on its own thread, a second
@@ -31,15 +33,20 @@ def recase(s, rng):
     return "".join(c.upper() if rng.chance(1, 2) else c.lower() for c in s)
 
 
-def mk_case(n, parents, uses, rng, rev, noclass=False, kinds=KINDS):
-    """parents[i] in {None, 0..n-1, n (= a class that does not exist)}; uses: i -> [j…]"""
+def mk_case(n, parents, uses, rng, rev, noclass=False, kinds=KINDS, headerless=()):
+    """parents[i] in {None, 0..n-1, n (= a class that does not exist)}; uses: i -> [j…] (j = i: the file uses itself);
+    headerless: the files that have no `class` line (flag n) — they keep their uses list, members, unknown types
+    and bodies (a field of an unknown type, flag u, is what sends a look-up through the uses list)"""
     fs = []
     for i in range(n):
         p = parents[i]
         par = "-" if p is None else ("aMissing" if p == n else recase(NAMES[p], rng))
         mem = [recase(m, rng) for m in ["m1", "m2", "f1"] if rng.chance(1, 2)]
         us = [recase(NAMES[j], rng) for j in uses.get(i, [])]
-        flags = ("x" if (us or rng.chance(1, 2)) else "") + ("u" if rng.chance(2, 5) else "")
+        if i in headerless:
+            flags = "n" + ("x" if rng.chance(1, 2) else "") + ("u" if rng.chance(4, 5) else "")
+        else:
+            flags = ("x" if (us or rng.chance(1, 2)) else "") + ("u" if rng.chance(2, 5) else "")
         fs.append("%s:%s:%s:%s:%s" % (NAMES[i], par, "+".join(mem) or "-", "+".join(us) or "-", flags or "-"))
     if noclass:
         fs.append("aNoClass:-:-:-:n")
@@ -50,15 +57,52 @@ def mk_case(n, parents, uses, rng, rev, noclass=False, kinds=KINDS):
     return "lock %s %s" % (",".join(fs), ",".join(reqs))
 
 
-def uses_graphs(m):
-    """all uses-graphs over m entities (no self-uses)"""
-    pairs = [(i, j) for i in range(m) for j in range(m) if i != j]
+def uses_graphs(m, selfuse=False):
+    """all uses-graphs over m entities (without / with self-uses)"""
+    pairs = [(i, j) for i in range(m) for j in range(m) if selfuse or i != j]
     for bits in itertools.product([0, 1], repeat=len(pairs)):
         u = {}
         for (i, j), b in zip(pairs, bits):
             if b:
                 u.setdefault(i, []).append(j)
         yield u
+
+
+def masks(n):
+    """the non-empty sets of files without a header"""
+    return [tuple(i for i in range(n) if (b >> i) & 1) for b in range(1, 1 << n)]
+
+
+def gen_headerless(ctx, cases):
+    """files WITHOUT class / module header that have uses lists: cycles among them, between them and classes,
+    self-use; unknown types and members; classes that name such a file as parent"""
+    rng = ctx.rng
+    quick = ctx.tier == "quick"
+
+    def parents(n):
+        return tuple(None if rng.chance(1, 2) else rng.below(n + 1) for _ in range(n))
+    # two files: every uses-graph incl. self-use x every choice of header-less files x both orders
+    for hl in masks(2):
+        for u in uses_graphs(2, selfuse=True):
+            for rev in (False, True):
+                cases.append(mk_case(2, parents(2), u, rng, rev, headerless=hl))
+                ctx.count("header-less: exhaustive uses-graphs (with self-use) x header-less sets x orders, n=2")
+    # three files: every uses-graph incl. self-use (512); quick: one random header-less set / order each
+    for u in uses_graphs(3, selfuse=True):
+        for hl in ([masks(3)[rng.below(7)]] if quick else masks(3)):
+            for rev in ([rng.chance(1, 2)] if quick else (False, True)):
+                cases.append(mk_case(3, parents(3), u, rng, rev, headerless=hl))
+                ctx.count("header-less: exhaustive uses-graphs (with self-use) n=3" + (" (random header-less set / order each)" if quick else " x header-less sets x orders"))
+    # four files, the last one a class that looks at the others from outside: every uses-graph over the first three
+    # (no self-use) x every header-less subset of them, random uses of the fourth
+    ug = list(uses_graphs(3))
+    for u in ug:
+        for hl in ([masks(3)[rng.below(7)]] if quick else masks(3)):
+            u4 = dict(u)
+            u4[3] = [j for j in range(3) if rng.chance(1, 2)] or [rng.below(3)]
+            ps = parents(3) + (None if rng.chance(1, 2) else rng.below(5),)
+            cases.append(mk_case(4, ps, u4, rng, rng.chance(1, 2), headerless=hl))
+            ctx.count("header-less: uses-graphs n=3 + a class using them")
 
 
 def gen_cases(ctx):
@@ -69,6 +113,17 @@ def gen_cases(ctx):
     ncorpus = len(cases)
     rng = ctx.rng
     quick = ctx.tier == "quick"
+    # first (they run in the first wave): the shapes with header-less files
+    nh = len(cases)
+    gen_headerless(ctx, cases)
+    hcases = cases[nh:]
+    if quick:
+        # the first wave shows a sample of them, the rest goes to the end
+        rng.shuffle(hcases)
+        cases[nh:] = hcases[:120]
+        hrest = hcases[120:]
+    else:
+        hrest = []
     if quick:
         # every parent assignment over 1..3 classes, both analysis orders, one random uses-graph each
         for n in (1, 2, 3):
@@ -104,6 +159,7 @@ def gen_cases(ctx):
                     for rev in (False, True):
                         cases.append(mk_case(n, ps, u, rng, rev))
                         ctx.count("exhaustive n=%d" % n)
+    cases += hrest
     return cases, ncorpus
 
 
@@ -127,6 +183,26 @@ def shape(case):
     return selfp, cyc
 
 
+def headerless_shape(case):
+    """(number of files without header that have a uses list, some of them use each other / themselves in a cycle)"""
+    files = [f.split(":") for f in case.split()[1].split(",")]
+    hl = {w[0].upper(): [u.upper() for u in (w[3].split("+") if len(w) > 3 and w[3] != "-" else [])]
+          for w in files if len(w) > 4 and "n" in w[4]}
+    g = {k: [u for u in v if u in hl] for k, v in hl.items()}
+    cyc = False
+    for k in g:
+        seen, todo = set(), list(g[k])
+        while todo:
+            j = todo.pop()
+            if j == k:
+                cyc = True
+                break
+            if j not in seen:
+                seen.add(j)
+                todo += g[j]
+    return sum(1 for v in hl.values() if v), cyc
+
+
 def canon(h):
     """harness line -> the part the model predicts"""
     w = [x for x in h.split() if not x.startswith("after:")]
@@ -147,7 +223,12 @@ def classify(case, h):
             if res == "deadlocks":
                 k = "deadlock-self-parent" if selfp and not cyc else ("deadlock-mutual-parent" if cyc else "deadlock")
             elif res.startswith("crash") or res == "spins":
-                k = "stack-overflow-cyclic-parents" if (selfp or cyc) else "crash"
+                # the walks over cyclic parents belong to the hierarchy requests; an analysis that never ends shows in any request
+                hlc = headerless_shape(case)[1]
+                if (selfp or cyc) and (req.startswith("hier") or not hlc):
+                    k = "stack-overflow-cyclic-parents"
+                else:
+                    k = "stack-overflow-headerless-uses-cycle" if hlc else "crash"
             elif res == "panic":
                 k = "panic"
             else:
@@ -167,6 +248,7 @@ WHAT = {
     "deadlock-mutual-parent": "classes that name each other as parent dead-lock a request",
     "deadlock": "a request blocks forever",
     "stack-overflow-cyclic-parents": "a member hierarchy request over cyclic parents recurses without end (the process aborts)",
+    "stack-overflow-headerless-uses-cycle": "files without class / module header that use each other (or themselves) are analysed again and again: the request recurses without end (the process aborts)",
     "crash": "the process died during a request",
     "panic": "a request panicked",
     "request-timeout": "a request did not finish within the overall deadline",
@@ -192,17 +274,18 @@ def run(ctx):
         "Lean 4.33 kernel + leanchecker; axioms ⊆ {propext, Classical.choice, Quot.sound}",
         "hand-written model lean/GoldModel/Model/Locks.lean (publish-before-walk, handle_class linking rule, lock structure of parent recursion, member walks), tied by the `lock` correspondence (per-request outcome + final parent pointers) and by E11ParentLink",
         "vlib/extractors/parent_link.py (reads guard, chain check, visited sets; fails closed on any other shape)",
+        "vlib/extractors/table_cache.py (reads: table stored on the document info before walk_tree; get_symbol_table_for_uri_def_only returns the stored table unconditionally; fails closed on any other shape)",
         "std::sync::Mutex as a non-reentrant lock whose guard is dropped at the end of the statement; Arc identity as table identity",
         "harness/src/modes/lock.rs + wsutil.rs (real ProjectManager / services on materialised workspaces, one thread per request, deadline + /proc thread state to tell blocked from busy, child processes), lean_exe compilation of the driver",
     ]
     ctx.assumptions += [
         "'bounded time' is measured (deadline %s ms per request, confirmed blocked via /proc); the theorems give termination with all locks released on the model" % os.environ.get("VERIF_LOCK_DEADLINE_MS", "1500"),
         "requests run one at a time on a fresh manager per case (concurrent requests are C03's subject)",
-        "file stem = class name; workspaces are the generator's (<= 4 classes + optional file without a class, members m1 m2 f1, uses over <= 3 entities, unknown types, method bodies)",
+        "file stem = class name; workspaces are the generator's (<= 4 files, each a class or a file without class header, + optional bare file without a class; members m1 m2 f1, uses over <= 4 entities incl. self-use, unknown types, method bodies)",
     ]
     if ctx.replay:
         return replay(ctx)
-    ctx.extract(["E11ParentLink"])
+    ctx.extract(["E11ParentLink", "E11TableCache"])
     ctx.prove("GoldModel.Props.C14")
     if not ctx.build_harness():
         return ctx.finish(rule=RULE)
@@ -221,7 +304,7 @@ def run(ctx):
         impl += run_sharded(ctx, cases[first:])
     model = ctx.run_driver(["lock" + c[4:] for c in cases])
     ctx.compare("lock", cases, [canon(h) for h in impl], model,
-                nontrivial=lambda c, a: any(shape(c)))
+                nontrivial=lambda c, a: any(shape(c)) or headerless_shape(c)[0] > 0)
     nreq = 0
     for c, h in zip(cases, impl):
         nreq += len(c.split()[2].split(","))
@@ -231,15 +314,19 @@ def run(ctx):
     ctx.dist["requests issued"] = nreq
     ctx.dist["workspaces with a self parent (up to case)"] = sum(1 for c in cases if shape(c)[0])
     ctx.dist["workspaces with a parent cycle of length >= 2"] = sum(1 for c in cases if shape(c)[1])
+    ctx.dist["workspaces with a header-less file that has a uses list"] = sum(1 for c in cases if headerless_shape(c)[0])
+    ctx.dist["workspaces with a uses cycle among header-less files (incl. self-use)"] = sum(1 for c in cases if headerless_shape(c)[1])
     ctx.samples = [{"case": cases[i], "harness": impl[i]} for i in (0, ncorpus, len(cases) - 1) if 0 <= i < len(cases)]
     return ctx.finish(rule=RULE, extra={"exhaustive": ctx.tier == "thorough", "exhaustive_space":
                                         "thorough: all 6^4 parent assignments over 4 classes x all 64 uses-graphs over 3 entities x both analysis orders, and everything over 1..3 classes; quick: all assignments over 1..4 classes (three random uses-graphs / orders each for 4) + all 64 uses-graphs"})
 
 
-RULE = ("cases = corpus (self parent in every letter case, mutual parents, longer cycles, subclass of a cycle, uses cycles, missing parents, file without a class, unknown types) "
+RULE = ("cases = corpus (self parent in every letter case, mutual parents, longer cycles, subclass of a cycle, uses cycles, missing parents, file without a class, unknown types, "
+        "header-less files that use each other / themselves / classes) "
         "+ parent assignments (each class: none, any class incl. itself, a missing class; parent references in random letter case) x uses-graphs x analysis order (requests on the files "
         "forwards or backwards); every case issues diag, def, comp, hier, hierx on every file, each on its own thread with a deadline. "
-        "distinct_nontrivial = distinct implementation outputs among workspaces that have a self parent or a parent cycle")
+        "header-less files (flag n: no class line, but uses list, members, unknown types, bodies): every uses-graph incl. self-use over 2 and 3 files x header-less subsets, "
+        "and over 3 files used by a class. distinct_nontrivial = distinct implementation outputs among workspaces that have a self parent, a parent cycle or a header-less file with a uses list")
 
 
 def replay(ctx):
@@ -249,7 +336,7 @@ def replay(ctx):
     if not line:
         print("replay file names no input:", json.dumps(d.get("broken", d), indent=1)[:3000])
         return 1
-    ctx.extract(["E11ParentLink"])
+    ctx.extract(["E11ParentLink", "E11TableCache"])
     ctx.build_harness()
     ctx.lake_build(["driver"])
     h = ctx.run_harness("lock", [line])[0]
